@@ -63,7 +63,7 @@ def swc_to_jaxley(
             warn("Found a segment with length 0. Clipping it to 1.0")
             pathlengths[i] = 1.0
     radius_fns = _radius_generating_fns(
-        sorted_branches, content[:, 5], each_length, parents, types
+        sorted_branches, content[:, 5], each_length, parents, types, content[:, 1]
     )
 
     if np.sum(np.asarray(parents) == -1) > 1.0:
